@@ -16,6 +16,11 @@ CHECKS = {
         technique="translation validation: SymAVM(emitted TEAL) vs recipe semantics with a call stack, whole-program (bounded recursion depth) and routine-level with havoc'd callees (one inductive step, any depth); SMT obligation per path pair; models replayed concretely",
         text="For every enumerated program with routines (self/mutual recursion incl. routines of different arities and result kinds, by-value and by-reference parameters, call sites in statement position and under pending operands, Return at several body positions, locals that must survive calls) under every calling-convention option (versions 4..10, frame_pointers default/off, scratch_slots on/off), z3 shows emitted TEAL and reference agree for ALL inputs up to the recursion-depth bound; additionally each routine is checked in isolation from an arbitrary caller cell with every callee replaced by an arbitrary one that clobbers all scratch slots when it can re-enter, which covers the spill/restore code for any depth.",
         note="Trusted: TEAL op semantics (verif/avm), recipe call semantics (verif/recipe/ref.py, verif/modular.py), z3. Bounds: recursion depth D and loop K for whole-program runs; routine-level runs exclude by-reference parameters and shared variables."),
+    "C03": dict(
+        category="translation_validation", design_ref="DESIGN.md 3/C03",
+        technique="translation validation, TEAL vs TEAL: SymAVM on the programs emitted under two option settings over one symbolic context, SMT obligation per path pair (verdict, return, effects, user-numbered slots, what each routine leaves on the stack); models replayed concretely",
+        text="One recipe compiled under a base setting and under each other (version, scratch_slots, frame_pointers) setting; z3 shows for ALL inputs within the loop/recursion bounds that both emitted programs give the same verdict, return value, ordered effects and final contents of user-numbered scratch slots, and - for pairs differing only in the scratch-slot optimisation - that every routine leaves the same net number of values (and the same top value) when control leaves it. Programs: exhaustive store/load placement family for the optimiser (2 variables, adjacent and non-adjacent loads, main/subroutine/loop/split across a branch, user-numbered, dynamic, MaybeValue temporaries), routine families, control skeletons.",
+        note="Trusted: TEAL op semantics (verif/avm), z3. Bounds: loop K, recursion D, byte lengths; program families enumerated to a stated size. The stack clause is checked as net height + top value per routine exit (spilled slots of outer frames legitimately differ between settings)."),
     "C16": dict(
         category="other", design_ref="DESIGN.md 3/C16",
         technique="SMT (z3 nonlinear integer arithmetic) Hoare contracts over segments of the emitted WideRatio TEAL at full 64-bit width + whole-program bit-vector equivalence at narrow word widths; models replayed on the emitted code",
